@@ -14,6 +14,7 @@ Library canonicalisation (the trusted table of numpy / builtin equivalences):
   x[m, :] = x[m] for a leading mask / index
 """
 import ast
+import os
 
 from .formula import ExprBuilder, Undecided, Canon, num, show
 from .pyfront import dotted
@@ -93,6 +94,15 @@ class PB(ExprBuilder):
             return ('call', 'slice', tuple(self.build(x, env) if x is not None else ('sym', 'None') for x in (e.lower, e.upper, e.step)))
         if isinstance(e, ast.Starred):
             return ('call', 'star', (self.build(e.value, env),))
+        if isinstance(e, (ast.ListComp, ast.GeneratorExp)) and len(e.generators) == 1 and not e.generators[0].ifs and \
+                isinstance(e.generators[0].target, ast.Name):
+            it = self.build(e.generators[0].iter, env)
+            if isinstance(it, tuple) and it[0] == 'tuple':
+                v = e.generators[0].target.id
+                return ('tuple', tuple(self.build(e.elt, dict(env, **{v: x})) for x in it[1]))
+            # symbolic iterable: map(elt, iterable) with the loop variable bound to a generic element
+            v = e.generators[0].target.id
+            return ('call', 'map', (self.build(e.elt, dict(env, **{v: ('call', 'elem', (it,))})), it))
         if isinstance(e, (ast.ListComp, ast.GeneratorExp, ast.SetComp, ast.DictComp, ast.Lambda)):
             return ('call', 'py:' + ast.unparse(e).replace(" ", ""), ())
         return super().build(e, env)
@@ -154,6 +164,8 @@ class PB(ExprBuilder):
             kw = _kws(e, self, env)
             return ('call', '.' + m, (recv,) + tuple(args), *((kw,) if kw else ()))
         kw = _kws(e, self, env)
+        if isinstance(e.func, ast.Name) and e.func.id in env:
+            return ('call', 'apply', (env[e.func.id],) + tuple(args), *((kw,) if kw else ()))
         return ('call', 'f:' + (d or ast.unparse(e.func)), tuple(args), *((kw,) if kw else ()))
 
     def _reduce(self, m, x, kw):
@@ -519,9 +531,15 @@ def sort_bool(e):
 
 def same(a, b, env=None):
     try:
+        pa, pb = parse(a, env), parse(b, env)
+        if pa == pb:
+            return True
         c = Canon()
-        return c.ratio(sort_bool(lift_where(parse(a, env)))) == c.ratio(sort_bool(lift_where(parse(b, env))))
+        return c.ratio(sort_bool(lift_where(pa))) == c.ratio(sort_bool(lift_where(pb)))
     except Exception:
+        if os.environ.get("HV_DEBUG_SAME"):
+            import traceback
+            traceback.print_exc()
         return False
 
 
